@@ -77,6 +77,8 @@ type path struct {
 	sched_   *scheduler
 	ended    bool
 	pending  []pendingAssert
+	concreteClock bool
+	clockTicks    int64
 	timeStep int // max seconds between two consecutive time.Now readings (0 = unbounded)
 	known    map[int]bool // literal term id -> truth value implied syntactically by the path condition
 }
